@@ -239,6 +239,11 @@ func (r recorder) Broadcast(_ context.Context, duty core.Duty, set core.SignedDa
 	return nil
 }
 
+// Recorder returns node n's recording broadcaster (the one StartNode wires when NewBroadcaster is
+// nil), so that a NewBroadcaster hook can put it in front of another broadcaster: Broadcasts and
+// OnBcast then keep seeing every call.
+func (c *Cluster) Recorder(n *Node) core.Broadcaster { return recorder{n} }
+
 // P2PKey returns node i's deterministic p2p key.
 func P2PKey(i int) *k1.PrivateKey {
 	var b [32]byte
